@@ -21,6 +21,7 @@ def run(prog, chk):
         "the long-metric count is the number of advances minus the trailing run equal to the last one (at least 1) (R04.4)",
         "font bounding box = union of all glyph boxes, head gets it rounded, xMin..yMax roles (R04.5)",
         "the metrics tables are only written by their own builders (R04.7)",
+        "per-glyph records are computed from that glyph alone: no loop-carried variable feeds them (R04.8)",
         "OS/2 first / last character index = min / max of the mapped code points, last capped at 0xFFFF, 0xFFFF without code points; maxp.numGlyphs = number of glyphs in the glyph order; post 2.0 names follow the glyph order; VORG default = most frequent origin, records for the others (R04.6)",
     ]
     chk.not_decided += ["save / reload / re-save byte identity (fontTools)", "glyph bounding box arithmetic (pens)", "values recalculated by fontTools at compile time (maxp for glyf, OS/2 indices)"]
@@ -31,6 +32,7 @@ def run(prog, chk):
     r045(prog, chk)
     r046(prog, chk)
     r047(prog, chk)
+    r048(prog, chk)
 
 
 # ----------------------------------------------------------------------------- R04.1
@@ -333,7 +335,51 @@ def r047(prog, chk):
     chk.minimum("R04.7", 4)
 
 
+# ----------------------------------------------------------------------------- R04.8
+def r048(prog, chk):
+    """A glyph's record is computed from that glyph alone: no variable that feeds a
+    per-glyph store is carried over from a previous iteration (assigned only on some
+    paths inside the loop, with an older value surviving on the others)."""
+    ix = prog.ix
+    n = 0
+    for mname in ("setupTable_hmtx", "setupTable_vmtx", "setupTable_VORG", "_setupTable_hhea_or_vhea"):
+        f = ix.get_method(BASE_OUTLINE, mname, own=True)
+        cfg = prog.cfg(f)
+        for lp in [x for x in A.body_nodes(f.node) if isinstance(x, ast.For)]:
+            inside = {id(x) for x in ast.walk(lp)}
+            sinks = []
+            for s_, t, v in subscript_stores(f):
+                if id(s_) in inside and v is not None:
+                    sinks.append((s_, v))
+            for c in A.calls_in(lp):
+                if isinstance(c.func, ast.Attribute) and c.func.attr == "append" and c.args:
+                    sinks.append((ix.enclosing_stmt(c), c.args[0]))
+            for st, val in sinks:
+                for nm in [x for x in ast.walk(val) if isinstance(x, ast.Name) and isinstance(x.ctx, ast.Load)]:
+                    defs = cfg.reaching_defs(nm.id, st)
+                    din = [d for d in defs if d.kind not in ("param",) and id(d.binder) in inside and d.binder is not lp]
+                    dloop = [d for d in defs if d.binder is lp]
+                    dout = [d for d in defs if d not in din and d not in dloop]
+                    if not din or dloop:
+                        continue
+                    n += 1
+                    sn = cfg.node_of(st)
+                    head = cfg.node_of(lp)
+                    dnodes = [d.node for d in din if d.node is not None and d.node >= 0]
+                    # definitely assigned in this iteration: no path from the loop head to the store avoids every in-loop assignment
+                    ok = head is not None and sn is not None and not cfg.exists_path(head, [sn], avoid=dnodes)
+                    # an in-loop definition exists but none is certain to run before the store in this iteration
+                    chk.ob("R04.8", f"{f.short}|{A.keytext(f.node, st)[:50]}|{A.keytext(f.node, nm)} is this glyph's own value", ok, where(f, st), detail="assigned on every path of the iteration",
+                           message=f"{f.short}: `{nm.id}` feeds a per-glyph record but is only assigned on some paths inside the loop: on the others the value of a previous glyph "
+                                   f"(or the one set before the loop) is used")
+    chk.minimum("R04.8", 6)
+
+
 MUTANTS = [
+    M("default vertical origin hoisted out of the loop, explicit origins leak into later glyphs (seeded C04c)", "ufo2ft/outlineCompiler.py", "BaseOutlineCompiler.setupTable_vmtx",
+      "verticalOrigin = _getVerticalOrigin(self.otf, glyph)", "if getattr(glyph, 'verticalOrigin', None) is not None:\n    verticalOrigin = otRound(glyph.verticalOrigin)", rule="R04.8"),
+    M("left bearing only recomputed for glyphs with a box", "ufo2ft/outlineCompiler.py", "BaseOutlineCompiler.setupTable_hmtx",
+      "left = bounds.xMin if bounds else 0", "if bounds:\n    left = bounds.xMin", rule="R04.8"),
     M("use-my-metrics composites take the base glyph's hmtx record (seeded C04b)", "ufo2ft/instructionCompiler.py", "InstructionCompiler.autoUseMyMetrics",
       "width = hmtx[glyphName][0]", "width = hmtx[glyphName][0]\nhmtx[glyphName] = (width, 0)", rule="R04.7"),
     M("post-processor zeroes negative bearings", "ufo2ft/postProcessor.py", "PostProcessor.process_glyph_names",
